@@ -90,6 +90,11 @@ pub fn must_pay(info: &MessageInfo, denom: &str) -> (r: Result<Uint128, PaymentE
     ensures r is Ok <==> paid_exactly(info.funds@, denom@) is Some,
             r is Ok ==> Some(r->Ok_0) == paid_exactly(info.funds@, denom@),
 { unimplemented!() }
+/// one_coin: exactly one coin, non-zero
+#[verifier::external_body]
+pub fn one_coin(info: &MessageInfo) -> (r: Result<Coin, PaymentError>)
+    ensures r is Ok <==> info.funds@.len() == 1 && info.funds@[0].amount.0 != 0, r is Ok ==> r->Ok_0 == info.funds@[0],
+{ unimplemented!() }
 #[verifier::external_body]
 pub fn nonpayable(info: &MessageInfo) -> (r: Result<(), PaymentError>)
     ensures r is Ok <==> info.funds@.len() == 0
